@@ -34,6 +34,17 @@ def run(tier, seed, replay=None):
         raise Inconclusive("Codec_Gen failed on the model: %s\n%s" % (g.invariant, g.out[-2500:]))
     recs = os.path.join(sc, "c13.ndjson")
     vlib.vh(["c13", "-cases", cases, "-out", recs, "-rand", 60 if quick else 12000, "-seed", seed], timeout=1700)
+    if os.path.exists(recs + ".rejected"):
+        # sqlgen validates every column at registration by converting its zero value to SQL and back
+        v = vlib.Verdict(PROP)
+        why = open(recs + ".rejected").read()
+        v.report(None, "RegisterType refuses the zoo's row type (valid on every correct tree): the round trip of a zero value fails: " + why[:300],
+                 {"kind": "register", "error": why})
+        rc = v.finish()
+        vlib.write_evidence(PROP, tier, seed, "exploration", {"evaluations": 1, "distinct_nontrivial": 1,
+                            "rule": "registration of the zoo's row type only: it was refused", "exhaustive": False},
+                            ["see DESIGN.md"], violations=len(v.violations))
+        return rc
     bad = os.path.join(sc, "c13bad.ndjson")
     t = vlib.tlc("Codec_Trace", "Codec_Trace.cfg", env={"ZOO": zoo, "RECS": recs, "OUT": bad}, workers=1, timeout=1700, heap="8g")
     if t.invariant == "Complete":
